@@ -22,6 +22,7 @@ import (
 	"sync"
 	"sync/atomic"
 	"testing"
+	"time"
 
 	"src.elv.sh/pkg/eval"
 	"src.elv.sh/pkg/eval/vals"
@@ -248,6 +249,10 @@ type c16Worker struct {
 	ev       *eval.Evaler
 	base     *eval.Ns
 	baseSnap string
+	// family D: code that ran may have loaded a module into the Evaler (state
+	// that the snapshot does not show), so the context is only reused after
+	// static errors; also cross-check CheckTree
+	modFamily bool
 }
 
 const c16FileOrig = "orig\n"
@@ -279,6 +284,7 @@ func c16WorkerFor(l *vk.Local) *c16Worker {
 }
 
 var c16Base string
+var c16LibDir string
 
 func (w *c16Worker) resetFile() {
 	os.Remove(w.fpath)
@@ -330,6 +336,12 @@ func (w *c16Worker) release(snap string, dirty bool) {
 func (w *c16Worker) newEvaler() *eval.Evaler {
 	ev := eval.NewEvaler()
 	ev.AddModule("str", str.Ns)
+	// mod1: known to the Evaler (so Check lists it among the known modules) but not imported
+	ev.AddModule("mod1", eval.BuildNs().
+		AddVar("bar", vars.FromInit("b")).
+		AddGoFn("foo", func(...any) {}).Ns())
+	// mod2 is a file in the lib dir: importable, but unknown to the Evaler until it has been imported
+	ev.LibDirs = []string{c16LibDir}
 	ev.ExtendGlobal(eval.BuildNs().
 		AddVar("g", vars.FromInit("0")).
 		AddVar("f", vars.FromInit(w.fpath)).
@@ -432,6 +444,18 @@ func (o *c16Obs) quiet() bool {
 	return len(o.values) == 0 && o.stdout == "" && o.stderr == "" && o.fileOK && o.marks == 0
 }
 
+// c16ErrList renders parse or compilation errors as "from-to message; ...".
+func c16ErrList(err error) string {
+	var sb strings.Builder
+	for _, e := range parse.UnpackErrors(err) {
+		fmt.Fprintf(&sb, "%d-%d %s; ", e.Context.From, e.Context.To, e.Message)
+	}
+	for _, e := range eval.UnpackCompilationErrors(err) {
+		fmt.Fprintf(&sb, "%d-%d %s; ", e.Context.From, e.Context.To, e.Message)
+	}
+	return sb.String()
+}
+
 // classification of an error returned by evaluation
 func c16ErrKind(err error) string {
 	switch {
@@ -490,6 +514,15 @@ func c16RunCase(c *vk.Ctx, w *c16Worker, route int, src string, exp int, cause s
 		return rn + "/check-panic"
 	}
 	checkBad := pe != nil || ce != nil
+	if w.modFamily {
+		var ce2 error
+		tree, _ := parse.Parse(parse.Source{Name: "c16", Code: src}, parse.Config{})
+		if p := vk.Try(func() { _, ce2 = ev.CheckTree(tree, nil) }); p != "" {
+			c.Violate("panic-in-check:"+vk.PanicSite(p), fmt.Sprintf("CheckTree(%q) panicked: %s", src, p), src)
+		} else if c16ErrList(ce2) != c16ErrList(ce) {
+			c.Violate("checktree-disagrees-with-check", fmt.Sprintf("CheckTree(%q) reported [%s] but Check reported [%s]", src, c16ErrList(ce2), c16ErrList(ce)), src)
+		}
+	}
 	if content, ok := w.fileState(); !ok || w.marks != 0 {
 		c.Violate("check-had-effects", fmt.Sprintf("Check(%q) had effects: file=%q calls=%d", src, content, w.marks), src)
 		w.marks = 0
@@ -565,6 +598,22 @@ func c16RunCase(c *vk.Ctx, w *c16Worker, route int, src string, exp int, cause s
 	}
 
 	// 4. the static check agrees with evaluation
+	if w.modFamily && !static {
+		w.ev = nil
+	}
+	if static {
+		// same errors (message and position): parse errors if the code does not
+		// parse (evaluation stops there), otherwise compilation errors
+		want, got := c16ErrList(msgErr), c16ErrList(ce)
+		if kind == "parse" {
+			got = c16ErrList(pe)
+		} else if pe != nil {
+			got = c16ErrList(pe) + got // Check found parse errors where evaluation found none
+		}
+		if checkBad && got != want {
+			c.Violate(rn+":check-and-eval-errors-differ", fmt.Sprintf("Check(%q) reported [%s] but evaluating [%s] %q reported the %s errors [%s]", src, got, rn, code, kind, want), src)
+		}
+	}
 	if checkBad && !static {
 		c.Violate(rn+":check-error-but-eval-has-none", fmt.Sprintf("Check(%q) reported parse error %v / compilation error %v, but evaluating [%s] %q reported no parse or compilation error (result: %s %v)", src, pe, ce, rn, code, kind, err), src)
 	}
@@ -588,6 +637,84 @@ func c16RunCase(c *vk.Ctx, w *c16Worker, route int, src string, exp int, cause s
 		eff = "effects"
 	}
 	return rn + "/" + kind + "/" + c16FirstMsg(msgErr) + "/" + eff
+}
+
+// ---------------------------------------------------------------------------
+// Module family: module-qualified command heads, variable references,
+// assignments and imports, for a builtin module known to the Evaler (str), a
+// module added with AddModule (mod1), a file module in the lib dir (mod2) and
+// a module that does not exist (nomod); none is imported initially.
+
+var c16Mods = []string{"str", "mod1", "mod2", "nomod"}
+
+const (
+	c16ModHead = iota
+	c16ModVar
+	c16ModSet
+	c16ModFnVar
+	c16ModUse
+	c16NModKinds
+)
+
+type c16ModStmt struct {
+	mod    int // -1: neutral "put a"
+	kind   int
+	nested bool // placed in its own called lambda
+}
+
+func (m c16ModStmt) code() string {
+	if m.mod < 0 {
+		return "put a"
+	}
+	name := c16Mods[m.mod]
+	var s string
+	switch m.kind {
+	case c16ModHead:
+		s = name + ":foo a"
+		if name == "str" {
+			s = "str:join , [a]"
+		}
+	case c16ModVar:
+		s = "echo $" + name + ":bar"
+	case c16ModSet:
+		s = "set " + name + ":bar = x"
+	case c16ModFnVar:
+		s = "put $" + name + ":foo~"
+		if name == "str" {
+			s = "put $str:join~"
+		}
+	case c16ModUse:
+		s = "use " + name
+	}
+	if m.nested {
+		s = "{ " + s + " }"
+	}
+	return s
+}
+
+// c16ModExpect: a variable reference or assignment through a namespace that
+// has not been imported by an earlier `use` in the same or the enclosing scope
+// is an unresolved variable (documented compilation error); everything else
+// here is statically valid (unknown command heads are external commands under
+// the default pragma, a failing import is a run-time exception).
+func c16ModExpect(seq []c16ModStmt) (int, string) {
+	vis := map[int]bool{}
+	for _, m := range seq {
+		if m.mod < 0 {
+			continue
+		}
+		switch m.kind {
+		case c16ModUse:
+			if !m.nested {
+				vis[m.mod] = true
+			}
+		case c16ModVar, c16ModSet, c16ModFnVar:
+			if !vis[m.mod] {
+				return c16Bad, "unimported-module-variable"
+			}
+		}
+	}
+	return c16OK, "valid"
 }
 
 // ---------------------------------------------------------------------------
@@ -771,6 +898,11 @@ func TestVerifC16(t *testing.T) {
 		// no external command can be found or run; stray redirect targets land in the scratch cwd
 		emptyBin := filepath.Join(c16Base, "emptybin")
 		cwd := filepath.Join(c16Base, "cwd")
+		c16LibDir = filepath.Join(c16Base, "lib")
+		os.MkdirAll(c16LibDir, 0o755)
+		if err := os.WriteFile(filepath.Join(c16LibDir, "mod2.elv"), []byte("var bar = 1\nfn foo {|@a| }\n"), 0o644); err != nil {
+			t.Fatal(err)
+		}
 		os.MkdirAll(emptyBin, 0o755)
 		os.MkdirAll(cwd, 0o755)
 		os.Setenv("PATH", emptyBin)
@@ -788,6 +920,7 @@ func TestVerifC16(t *testing.T) {
 		maxPre := vk.Pick(c, 2, 3)
 		maxSuf := 1
 		maxTok := vk.Pick(c, 4, 5)
+		maxMod := vk.Pick(c, 2, 3)
 		seps := []string{"\n", "; "}
 		allEff := make([]int, len(c16Effects))
 		for i := range allEff {
@@ -796,8 +929,8 @@ func TestVerifC16(t *testing.T) {
 		pres := c16Seqs(allEff, maxPre)
 		sufs := c16Seqs(allEff, maxSuf)
 
-		c.Rule(fmt.Sprintf("family A: every program <prefix><sep><wrapped offender><sep><suffix> with prefix = every sequence of <=%d of the %d effect statements, offender = each of %d offending/control statements, wrapper = each of %d placements (%s), suffix = every sequence of <=%d effect statements, sep = newline, and also '; ' for prefixes shorter than the bound, plus every pure effect sequence; each run in a pristine Evaler context through 3 routes (Evaler.Eval with default global, with cfg.Global, eval builtin) and, for prefixes of <=1 statement, the eval builtin with an &on-end callback; Check first. Family B: every sequence of <=%d word tokens over %d tokens %q joined by spaces, route eval, and builtin-eval for sequences shorter than the bound. Family C: elvish -compileonly [-json] -c / elvish -c through prog.Run on prefix(<=1 of 7 shell effects) x offender x wrapper x suffix(<=1). class = (route, outcome kind, first error message, effects or quiet) plus offender kind x wrapper x expectation",
-			maxPre, len(c16Effects), len(c16Offenders), len(c16Wraps), "bare, lambda, fn-uncalled, if-true, if-false, try, capture, pipeline, lambda-arg", maxSuf, maxTok, len(c16Tokens), c16Tokens))
+		c.Rule(fmt.Sprintf("family A: every program <prefix><sep><wrapped offender><sep><suffix> with prefix = every sequence of <=%d of the %d effect statements, offender = each of %d offending/control statements, wrapper = each of %d placements (%s), suffix = every sequence of <=%d effect statements, sep = newline, and also '; ' for prefixes shorter than the bound, plus every pure effect sequence; each run in a pristine Evaler context through 3 routes (Evaler.Eval with default global, with cfg.Global, eval builtin) and, for prefixes of <=1 statement, the eval builtin with an &on-end callback (quick tier: the cfg.Global route also only for prefixes of <=1 statement); Check first. Family B: every sequence of <=%d word tokens over %d tokens %q joined by spaces, route eval, and builtin-eval for sequences shorter than the bound. Family D: every sequence of <=%d statements over 41 module statements ({command head M:foo a, echo $M:bar, set M:bar = x, put $M:foo~, use M} x M in {str (builtin module known to the Evaler), mod1 (AddModule), mod2 (file in the lib dir), nomod} x {same scope, own nested lambda}, plus put a), at top level and inside an enclosing lambda, both separators, all 4 routes, none of the modules imported initially; Check, CheckTree and evaluation are compared on static error yes/no and on the list of error positions and messages. Family C: elvish -compileonly [-json] -c / elvish -c through prog.Run on prefix(<=1 of 7 shell effects) x offender x wrapper x suffix(<=1). class = (route, outcome kind, first error message, effects or quiet) plus offender kind x wrapper x expectation",
+			maxPre, len(c16Effects), len(c16Offenders), len(c16Wraps), "bare, lambda, fn-uncalled, if-true, if-false, try, capture, pipeline, lambda-arg", maxSuf, maxTok, len(c16Tokens), c16Tokens, maxMod))
 		c.Assume("observed effect channels: value channel and byte file of stdout, byte file of stderr, one scratch file that programs redirect to, a Go command counting its calls, and the Evaler's global namespace (names, variable identity, repr of values); other effects (environment variables, cwd, other files) are not observed",
 			"'same context' = the same fresh Evaler state (global g, f, c16mark~; str module) for Check and for evaluation; Check runs first and must itself leave the context unchanged",
 			"documented expectation (must / must not be a static error) is judged only for constructs whose static rejection is documented in language.md (undefined variable, unknown command under pragma, set of nonexistent variable, bad lvalue, try/else without catch, tmp outside function, unbalanced brackets/quotes); others are counted as expectation_not_judged but still subject to all other clauses",
@@ -819,6 +952,7 @@ func TestVerifC16(t *testing.T) {
 		}
 
 		// ---- family A
+		tFam := time.Now() // reporting only, never part of an oracle
 		type caseA struct {
 			pre, suf []int
 			off      int // -1: pure effect sequence
@@ -880,6 +1014,9 @@ func TestVerifC16(t *testing.T) {
 					if route == c16RouteOnEnd && len(ca.pre) > 1 {
 						continue // the &on-end route runs with prefixes of <=1 statement
 					}
+					if route == c16RouteCfg && len(ca.pre) > 1 && !c.Thorough() {
+						continue // quick: the cfg.Global route runs with prefixes of <=1 statement
+					}
 					cls := c16RunCase(c, w, route, src, exp, cause)
 					atomic.AddInt64(&nA, 1)
 					l.Case(fmt.Sprintf("A/%s/%d/%s", label, exp, cls))
@@ -895,9 +1032,71 @@ func TestVerifC16(t *testing.T) {
 		}
 		c.Merge(l0)
 		c.Parallel(len(casesA)-nSimple, func(l *vk.Local, i int) { runA(l, i+nSimple) })
+		c.Set("familyA_wall_s", time.Since(tFam).Seconds())
+		tFam = time.Now()
 		c.Set("familyA_programs", len(casesA))
 		c.Set("familyA_runs", nA)
 		c.Set("familyA_expectation_not_judged_programs", notJudged)
+
+		// ---- family D (modules)
+		{
+			var alpha []c16ModStmt
+			alpha = append(alpha, c16ModStmt{mod: -1})
+			for mi := range c16Mods {
+				for k := 0; k < c16NModKinds; k++ {
+					alpha = append(alpha, c16ModStmt{mi, k, false}, c16ModStmt{mi, k, true})
+				}
+			}
+			ids := make([]int, len(alpha))
+			for i := range ids {
+				ids[i] = i
+			}
+			seqsD := c16Seqs(ids, maxMod)
+			var nD int64
+			c.Parallel(len(seqsD), func(l *vk.Local, i int) {
+				if c.TimeUp() {
+					c.Capped("time budget reached in family D")
+					return
+				}
+				w := c16WorkerFor(l)
+				w.modFamily = true
+				defer func() { w.modFamily = false; w.ev = nil }()
+				seq := make([]c16ModStmt, len(seqsD[i]))
+				parts := make([]string, len(seq))
+				cls := ""
+				for j, id := range seqsD[i] {
+					seq[j] = alpha[id]
+					parts[j] = seq[j].code()
+					if seq[j].mod >= 0 {
+						cls += fmt.Sprintf("%s%d%v,", c16Mods[seq[j].mod], seq[j].kind, seq[j].nested)
+					}
+				}
+				if len(seq) > 2 {
+					cls = fmt.Sprintf("len%d", len(seq))
+				}
+				exp, cause := c16ModExpect(seq)
+				for si, sep := range seps {
+					if si > 0 && len(seq) < 2 {
+						continue
+					}
+					body := strings.Join(parts, sep)
+					for oi, src := range []string{body, "{ " + body + " }"} {
+						if len(seq) == 0 && oi > 0 {
+							continue
+						}
+						for route := 0; route < c16NRoutes; route++ {
+							r := c16RunCase(c, w, route, src, exp, cause)
+							atomic.AddInt64(&nD, 1)
+							l.Case(fmt.Sprintf("D/%s/%d/%d/%s", cls, oi, exp, r))
+						}
+					}
+				}
+			})
+			c.Set("familyD_wall_s", time.Since(tFam).Seconds())
+			tFam = time.Now()
+			c.Set("familyD_sequences", len(seqsD))
+			c.Set("familyD_runs", nD)
+		}
 
 		// ---- family B
 		var nB int64
@@ -917,6 +1116,8 @@ func TestVerifC16(t *testing.T) {
 			}
 			atomic.AddInt64(&nB, 1)
 		})
+		c.Set("familyB_wall_s", time.Since(tFam).Seconds())
+		tFam = time.Now()
 		c.Set("familyB_programs", nB)
 
 		// ---- family C
@@ -969,6 +1170,7 @@ func TestVerifC16(t *testing.T) {
 			atomic.AddInt64(&nC, 1)
 			l.Case(fmt.Sprintf("C/%s/%d/%s", label, exp, cls))
 		})
+		c.Set("familyC_wall_s", time.Since(tFam).Seconds())
 		c.Set("familyC_programs", nC)
 	})
 }
